@@ -1330,7 +1330,7 @@ pub fn gen_world(rng: &mut Rng, p: Profile) -> World {
 /// generic lengths, const-generic structs, raw pointers, function pointers, references — rendered directly as
 /// chalk text. No reference model: used by equivalence checks (C18 filtered == unfiltered, C04, C28, C10).
 pub fn gen_zoo(rng: &mut Rng) -> World {
-    fn ty(rng: &mut Rng, depth: usize, tvars: &[String], cvars: &[String]) -> String {
+    fn ty(rng: &mut Rng, depth: usize, tvars: &[String], cvars: &[String], lvars: &[String]) -> String {
         if !tvars.is_empty() && rng.coin(30) {
             return rng.pick(tvars).clone();
         }
@@ -1339,17 +1339,19 @@ pub fn gen_zoo(rng: &mut Rng) -> World {
             return leaf(rng);
         }
         let n = |rng: &mut Rng, cvars: &[String]| -> String { if !cvars.is_empty() && rng.coin(50) { rng.pick(cvars).clone() } else { rng.pick(&["2", "3"]).to_string() } };
-        match rng.below(11) {
-            0 => format!("({}, {})", ty(rng, depth - 1, tvars, cvars), ty(rng, depth - 1, tvars, cvars)),
-            1 => format!("[{}; {}]", ty(rng, depth - 1, tvars, cvars), n(rng, cvars)),
+        let lt = |rng: &mut Rng| -> String { if !lvars.is_empty() && rng.coin(75) { rng.pick(lvars).clone() } else { "'static".to_string() } };
+        match rng.below(13) {
+            0 => format!("({}, {})", ty(rng, depth - 1, tvars, cvars, lvars), ty(rng, depth - 1, tvars, cvars, lvars)),
+            1 => format!("[{}; {}]", ty(rng, depth - 1, tvars, cvars, lvars), n(rng, cvars)),
             2 => format!("S<{}>", n(rng, cvars)),
-            3 => format!("P<{}>", ty(rng, depth - 1, tvars, cvars)),
-            4 => format!("*const {}", ty(rng, depth - 1, tvars, cvars)),
-            5 => format!("*mut {}", ty(rng, depth - 1, tvars, cvars)),
-            6 => format!("fn({}) -> {}", ty(rng, depth - 1, tvars, cvars), ty(rng, depth - 1, tvars, cvars)),
-            7 => format!("Q<{}, {}>", ty(rng, depth - 1, tvars, cvars), ty(rng, depth - 1, tvars, cvars)),
-            8 => format!("[{}]", ty(rng, depth - 1, tvars, cvars)),
-            9 => format!("({},)", ty(rng, depth - 1, tvars, cvars)),
+            3 => format!("P<{}>", ty(rng, depth - 1, tvars, cvars, lvars)),
+            4 => format!("*const {}", ty(rng, depth - 1, tvars, cvars, lvars)),
+            5 => format!("*mut {}", ty(rng, depth - 1, tvars, cvars, lvars)),
+            6 => format!("fn({}) -> {}", ty(rng, depth - 1, tvars, cvars, lvars), ty(rng, depth - 1, tvars, cvars, lvars)),
+            7 => format!("Q<{}, {}>", ty(rng, depth - 1, tvars, cvars, lvars), ty(rng, depth - 1, tvars, cvars, lvars)),
+            8 => format!("[{}]", ty(rng, depth - 1, tvars, cvars, lvars)),
+            9 => format!("({},)", ty(rng, depth - 1, tvars, cvars, lvars)),
+            10 | 11 => format!("R<{}, {}>", lt(rng), ty(rng, depth - 1, tvars, cvars, lvars)),
             _ => leaf(rng),
         }
     }
@@ -1359,6 +1361,7 @@ pub fn gen_zoo(rng: &mut Rng) -> World {
         "struct S<const N> { }".into(),
         "struct P<T> { }".into(),
         "struct Q<T, U> { }".into(),
+        "struct R<'a, T> { }".into(),
         "trait Tr { }".into(),
         "trait Tr1<T> { }".into(),
         "trait Mk { }".into(),
@@ -1366,19 +1369,23 @@ pub fn gen_zoo(rng: &mut Rng) -> World {
     for _ in 0..rng.range(3, 9) {
         let nt = rng.below(3);
         let nc = if rng.coin(35) { 1 } else { 0 };
+        let nl = if rng.coin(40) { 1 } else { 0 };
         let tv: Vec<String> = (0..nt).map(|i| format!("T{}", i)).collect();
         let cv: Vec<String> = (0..nc).map(|i| format!("N{}", i)).collect();
-        let self_ty = ty(rng, 2, &tv, &cv);
+        let lv: Vec<String> = (0..nl).map(|i| format!("'l{}", i)).collect();
+        let self_ty = ty(rng, 2, &tv, &cv, &lv);
         let (tr, targ) = match rng.below(3) {
             0 => ("Tr".to_string(), None),
             1 => ("Mk".to_string(), None),
-            _ => ("Tr1".to_string(), Some(ty(rng, 1, &tv, &cv))),
+            _ => ("Tr1".to_string(), Some(ty(rng, 1, &tv, &cv, &lv))),
         };
         let header = format!("{}{}", self_ty, targ.clone().unwrap_or_default());
         // impl parameters must appear in the header
         let tv: Vec<String> = tv.into_iter().filter(|v| header.contains(v.as_str())).collect();
         let cv: Vec<String> = cv.into_iter().filter(|v| header.contains(v.as_str())).collect();
-        let mut gens: Vec<String> = tv.clone();
+        let lv: Vec<String> = lv.into_iter().filter(|v| header.contains(v.as_str())).collect();
+        let mut gens: Vec<String> = lv.clone();
+        gens.extend(tv.iter().cloned());
         gens.extend(cv.iter().map(|c| format!("const {}", c)));
         let wc = if !tv.is_empty() && rng.coin(35) { format!(" where {}: {}", rng.pick(&tv), rng.pick(&["Tr", "Mk"])) } else { String::new() };
         items.push(format!(
@@ -1390,21 +1397,31 @@ pub fn gen_zoo(rng: &mut Rng) -> World {
             wc
         ));
     }
+    if rng.coin(50) {
+        // impls whose header has a lifetime parameter and passes a type parameter through to the trait
+        let leaf = rng.pick(&["A", "B", "u32"]).to_string();
+        items.push(format!("impl<'l0, T0> Tr1<T0> for R<'l0, {}> {{ }}", leaf));
+        if rng.coin(50) {
+            items.push(format!("impl<'l0> Tr for R<'l0, {}> {{ }}", leaf));
+        }
+    }
     let mut goals = vec![];
     for _ in 0..rng.range(5, 9) {
         let net = rng.below(3);
         let nec = if rng.coin(40) { 1 } else { 0 };
+        let nel = if rng.coin(25) { 1 } else { 0 };
         let ev: Vec<String> = (0..net).map(|i| format!("X{}", i)).collect();
         let ec: Vec<String> = (0..nec).map(|i| format!("M{}", i)).collect();
-        let pred = |rng: &mut Rng, tv: &[String], cv: &[String]| -> String {
-            let t = ty(rng, 2, tv, cv);
+        let el: Vec<String> = (0..nel).map(|i| format!("'e{}", i)).collect();
+        let pred = |rng: &mut Rng, tv: &[String], cv: &[String], lv: &[String]| -> String {
+            let t = ty(rng, 2, tv, cv, lv);
             match rng.below(3) {
                 0 => format!("{}: Tr", t),
                 1 => format!("{}: Mk", t),
-                _ => format!("{}: Tr1<{}>", t, ty(rng, 1, tv, cv)),
+                _ => format!("{}: Tr1<{}>", t, ty(rng, 1, tv, cv, lv)),
             }
         };
-        let mut body = pred(rng, &ev, &ec);
+        let mut body = pred(rng, &ev, &ec, &el);
         let (mut ev, mut ec) = (ev, ec);
         if rng.coin(45) {
             // hypothesis whose clause is filtered by could_match against the goal: either unrelated, or the goal's own
@@ -1431,14 +1448,37 @@ pub fn gen_zoo(rng: &mut Rng) -> World {
                 }
                 h
             } else {
-                pred(rng, &ev, &ec)
+                pred(rng, &ev, &ec, &el)
             };
             body = format!("if ({}) {{ {} }}", h, body);
         }
-        if rng.coin(25) {
-            body = format!("forall<F0> {{ {} }}", body.replacen("A", "F0", 1));
+        match rng.below(10) {
+            0 | 1 => {
+                // universal type below a conjunction (not peeled): unknowns outside, fresh variables inside
+                let mut tv = ev.clone();
+                tv.push("F0".into());
+                let inner = if !ev.is_empty() && rng.coin(60) {
+                    // an unknown from outside the `forall` must be bound by something found inside it
+                    format!("{}: Tr1<F0>", rng.pick(&ev))
+                } else {
+                    pred(rng, &tv, &ec, &el)
+                };
+                let inner = if inner.contains("F0") { inner } else { format!("{}, F0 = F0", inner) };
+                body = format!("{}, forall<F0> {{ {} }}", body, inner);
+            }
+            2 => {
+                let mut lv = el.clone();
+                lv.push("'f0".into());
+                let inner = pred(rng, &ev, &ec, &lv);
+                body = format!("{}, forall<'f0> {{ {} }}", body, inner);
+            }
+            3 => {
+                body = format!("forall<F0> {{ {} }}", body.replacen("A", "F0", 1));
+            }
+            _ => {}
         }
-        let mut q: Vec<String> = ev.clone();
+        let mut q: Vec<String> = el.clone();
+        q.extend(ev.iter().cloned());
         q.extend(ec.iter().map(|c| format!("const {}", c)));
         let used: Vec<String> = q.into_iter().filter(|v| body.contains(v.trim_start_matches("const "))).collect();
         goals.push(if used.is_empty() { body } else { format!("exists<{}> {{ {} }}", used.join(", "), body) });
